@@ -233,7 +233,7 @@ pub fn run_c08(tier: Tier) -> Report {
     let seed = crate::evidence::seed();
     let (maxw, maxh) = if tier.thorough() { (320, 48) } else { (160, 24) };
     rep.set_rule(&format!(
-        "all widths 1..={maxw} x heights 1..={maxh} x 8 content classes {:?} (+ extras 352x288, 1x1000, 1000x1); all row-equality and column-equality patterns of two luma patterns for shapes <= 6x6; \
+        "all widths 1..={maxw} x heights 1..={maxh} x 8 content classes {:?} (+ extras 352x288, 1x1000, 1000x1); all row-equality and column-equality patterns of two luma patterns for shapes <= 6x6; all sequences of three calls over 24 small pictures on one thread (purity); \
          non-trivial = shape whose width is not a multiple of 4 or whose height is odd",
         CONTENT_NAMES
     ));
@@ -280,6 +280,43 @@ pub fn run_c08(tier: Tier) -> Report {
         rep.add_transitions(1);
     });
     rep.add_states(small.len() as u64);
+    // call histories: the conversion is a pure function, so a picture's result must not depend on
+    // what was converted before (on this thread). All sequences of three calls over an alphabet of
+    // small pictures that share sizes / width groups / chroma rows but differ in content.
+    {
+        let shapes: [(usize, usize); 8] = [(4, 1), (4, 2), (8, 2), (8, 1), (5, 3), (4, 4), (2, 2), (7, 1)];
+        let mut letters: Vec<(usize, usize, Vec<u8>, Vec<u8>, Vec<u8>)> = vec![];
+        for &(w, h) in &shapes {
+            let (y0, cb0, cr0) = content(0, w, h, seed);
+            let (y1, cb1, cr1) = content(1, w, h, seed ^ 99);
+            letters.push((w, h, y0.clone(), cb0.clone(), cr0.clone()));
+            letters.push((w, h, y0.clone(), cb1, cr1)); // same luma, other chroma
+            letters.push((w, h, y1, cb0, cr0)); // other luma, same chroma
+        }
+        let n = letters.len();
+        let rep_ref = &rep;
+        let m_ref = &m;
+        let letters_ref = &letters;
+        // one dedicated thread, fixed order: histories are deterministic
+        std::thread::scope(|sc| {
+            sc.spawn(move || {
+                crate::evidence::install_panic_hook();
+                for a in 0..n {
+                    for b in 0..n {
+                        for c in 0..n {
+                            for &k in &[a, b, c] {
+                                let l = &letters_ref[k];
+                                check_picture(rep_ref, m_ref, l.0, l.1, &l.2, &l.3, &l.4, "call-history");
+                            }
+                        }
+                    }
+                }
+            });
+        });
+        rep.add_transitions(3 * (n * n * n) as u64);
+        rep.add_states((n * n * n) as u64);
+        rep.extra("call_history_sequences", json!(n * n * n));
+    }
     // the empty picture
     match catch(|| yuv420_to_rgba(&[], &[], &[], 0)) {
         Ok(o) if o.is_empty() => {}
